@@ -25,7 +25,7 @@ TInit ==
 TReset ==
     /\ Consume("reset")
     /\ mode' = Ev.mode /\ A' = Ev.A /\ AF' = EvAtt /\ ranges' = Ev.ranges /\ cd' = Ev.cd /\ mult' = Ev.mult
-    /\ B' = [s \in EvSids |-> IF Ev.mode = "policy" THEN {0, EvBud(s)} ELSE {EvBud(s)}]
+    /\ B' = [s \in EvSids |-> IF Ev.mode # "flows" THEN {0, EvBud(s)} ELSE {EvBud(s)}]
     /\ cnt' = [s \in EvSids |-> 0]
     /\ last' = [ev |-> "reset"]
     /\ now' = 0 /\ has' = [k \in EvSids |-> FALSE]
@@ -43,7 +43,10 @@ TAdv == Consume("adv") /\ Advance(Ev.d) /\ UNCHANGED len
 \* many other sequences were opened (their answers are not part of this history: Isolation)
 TBurst == Consume("burst") /\ UNCHANGED vars
 
-TNext == TReset \/ TResp \/ TAdv \/ TBurst
+\* the same policies were applied again (new version, same retry remedies): nothing changes for the property
+TReload == Consume("reload") /\ UNCHANGED vars
+
+TNext == TReset \/ TResp \/ TAdv \/ TBurst \/ TReload
 
 TraceSpec == TInit /\ [][TNext]_tvars
 
